@@ -2,6 +2,7 @@ package main
 
 import (
 	"fmt"
+	"reflect"
 	"sort"
 
 	"github.com/paulmach/osm"
@@ -22,7 +23,9 @@ type listHelper struct {
 	idType  string // object | element | feature: how the result is decoded
 	ordered bool
 	ok      func(list []Triple) bool // list is in the helper's domain
-	f       func(list []Triple) []int64
+	// f calls the helper; if keep is not nil it receives the slice the helper returned
+	// (not a copy), so that the caller can look at it again later
+	f func(list []Triple, keep *interface{}) []int64
 }
 
 func allOfKinds(list []Triple, kinds ...string) bool {
@@ -99,6 +102,38 @@ func oids(ids osm.ObjectIDs) []int64 {
 	return out
 }
 
+func eidsK(keep *interface{}, ids osm.ElementIDs) []int64 {
+	if keep != nil {
+		*keep = ids
+	}
+	return eids(ids)
+}
+func fidsK(keep *interface{}, ids osm.FeatureIDs) []int64 {
+	if keep != nil {
+		*keep = ids
+	}
+	return fids(ids)
+}
+func oidsK(keep *interface{}, ids osm.ObjectIDs) []int64 {
+	if keep != nil {
+		*keep = ids
+	}
+	return oids(ids)
+}
+
+// again converts a kept result once more.
+func again(k interface{}) []int64 {
+	switch x := k.(type) {
+	case osm.ElementIDs:
+		return eids(x)
+	case osm.FeatureIDs:
+		return fids(x)
+	case osm.ObjectIDs:
+		return oids(x)
+	}
+	return nil
+}
+
 func elementsOf(list []Triple) osm.Elements {
 	es := make(osm.Elements, len(list))
 	for i, t := range list {
@@ -127,41 +162,41 @@ func atMostOneBounds(list []Triple) bool {
 }
 
 var listHelpers = []listHelper{
-	{"Elements.ElementIDs", "element", true, isElems, func(l []Triple) []int64 { return eids(elementsOf(l).ElementIDs()) }},
-	{"Elements.FeatureIDs", "feature", true, isElems, func(l []Triple) []int64 { return fids(elementsOf(l).FeatureIDs()) }},
-	{"Members.ElementIDs", "element", true, isElems, func(l []Triple) []int64 { return eids(membersOf(l).ElementIDs()) }},
-	{"Members.FeatureIDs", "feature", true, isElems, func(l []Triple) []int64 { return fids(membersOf(l).FeatureIDs()) }},
-	{"OSM.ElementIDs", "element", false, isElems, func(l []Triple) []int64 { return eids(osmOf(l).ElementIDs()) }},
-	{"OSM.FeatureIDs", "feature", false, isElems, func(l []Triple) []int64 { return fids(osmOf(l).FeatureIDs()) }},
-	{"OSM.Elements.ElementIDs", "element", false, isElems, func(l []Triple) []int64 { return eids(osmOf(l).Elements().ElementIDs()) }},
-	{"Objects.ObjectIDs", "object", true, func(l []Triple) bool { return true }, func(l []Triple) []int64 {
+	{"Elements.ElementIDs", "element", true, isElems, func(l []Triple, keep *interface{}) []int64 { return eidsK(keep, elementsOf(l).ElementIDs()) }},
+	{"Elements.FeatureIDs", "feature", true, isElems, func(l []Triple, keep *interface{}) []int64 { return fidsK(keep, elementsOf(l).FeatureIDs()) }},
+	{"Members.ElementIDs", "element", true, isElems, func(l []Triple, keep *interface{}) []int64 { return eidsK(keep, membersOf(l).ElementIDs()) }},
+	{"Members.FeatureIDs", "feature", true, isElems, func(l []Triple, keep *interface{}) []int64 { return fidsK(keep, membersOf(l).FeatureIDs()) }},
+	{"OSM.ElementIDs", "element", false, isElems, func(l []Triple, keep *interface{}) []int64 { return eidsK(keep, osmOf(l).ElementIDs()) }},
+	{"OSM.FeatureIDs", "feature", false, isElems, func(l []Triple, keep *interface{}) []int64 { return fidsK(keep, osmOf(l).FeatureIDs()) }},
+	{"OSM.Elements.ElementIDs", "element", false, isElems, func(l []Triple, keep *interface{}) []int64 { return eidsK(keep, osmOf(l).Elements().ElementIDs()) }},
+	{"Objects.ObjectIDs", "object", true, func(l []Triple) bool { return true }, func(l []Triple, keep *interface{}) []int64 {
 		os := make(osm.Objects, len(l))
 		for i, t := range l {
 			os[i] = objectOf(t)
 		}
-		return oids(os.ObjectIDs())
+		return oidsK(keep, os.ObjectIDs())
 	}},
-	{"OSM.Objects.ObjectIDs", "object", false, atMostOneBounds, func(l []Triple) []int64 { return oids(osmOf(l).Objects().ObjectIDs()) }},
-	{"Nodes.ElementIDs", "element", true, func(l []Triple) bool { return allOfKinds(l, "node") }, func(l []Triple) []int64 { return eids(osmOf(l).Nodes.ElementIDs()) }},
-	{"Nodes.FeatureIDs", "feature", true, func(l []Triple) bool { return allOfKinds(l, "node") }, func(l []Triple) []int64 { return fids(osmOf(l).Nodes.FeatureIDs()) }},
-	{"WayNodes.ElementIDs", "element", true, func(l []Triple) bool { return allOfKinds(l, "node") }, func(l []Triple) []int64 {
+	{"OSM.Objects.ObjectIDs", "object", false, atMostOneBounds, func(l []Triple, keep *interface{}) []int64 { return oidsK(keep, osmOf(l).Objects().ObjectIDs()) }},
+	{"Nodes.ElementIDs", "element", true, func(l []Triple) bool { return allOfKinds(l, "node") }, func(l []Triple, keep *interface{}) []int64 { return eidsK(keep, osmOf(l).Nodes.ElementIDs()) }},
+	{"Nodes.FeatureIDs", "feature", true, func(l []Triple) bool { return allOfKinds(l, "node") }, func(l []Triple, keep *interface{}) []int64 { return fidsK(keep, osmOf(l).Nodes.FeatureIDs()) }},
+	{"WayNodes.ElementIDs", "element", true, func(l []Triple) bool { return allOfKinds(l, "node") }, func(l []Triple, keep *interface{}) []int64 {
 		wn := make(osm.WayNodes, len(l))
 		for i, t := range l {
 			wn[i] = osm.WayNode{ID: osm.NodeID(t.Ref), Version: t.Ver}
 		}
-		return eids(wn.ElementIDs())
+		return eidsK(keep, wn.ElementIDs())
 	}},
-	{"WayNodes.FeatureIDs", "feature", true, func(l []Triple) bool { return allOfKinds(l, "node") }, func(l []Triple) []int64 {
+	{"WayNodes.FeatureIDs", "feature", true, func(l []Triple) bool { return allOfKinds(l, "node") }, func(l []Triple, keep *interface{}) []int64 {
 		wn := make(osm.WayNodes, len(l))
 		for i, t := range l {
 			wn[i] = osm.WayNode{ID: osm.NodeID(t.Ref), Version: t.Ver}
 		}
-		return fids(wn.FeatureIDs())
+		return fidsK(keep, wn.FeatureIDs())
 	}},
-	{"Ways.ElementIDs", "element", true, func(l []Triple) bool { return allOfKinds(l, "way") }, func(l []Triple) []int64 { return eids(osmOf(l).Ways.ElementIDs()) }},
-	{"Ways.FeatureIDs", "feature", true, func(l []Triple) bool { return allOfKinds(l, "way") }, func(l []Triple) []int64 { return fids(osmOf(l).Ways.FeatureIDs()) }},
-	{"Relations.ElementIDs", "element", true, func(l []Triple) bool { return allOfKinds(l, "relation") }, func(l []Triple) []int64 { return eids(osmOf(l).Relations.ElementIDs()) }},
-	{"Relations.FeatureIDs", "feature", true, func(l []Triple) bool { return allOfKinds(l, "relation") }, func(l []Triple) []int64 { return fids(osmOf(l).Relations.FeatureIDs()) }},
+	{"Ways.ElementIDs", "element", true, func(l []Triple) bool { return allOfKinds(l, "way") }, func(l []Triple, keep *interface{}) []int64 { return eidsK(keep, osmOf(l).Ways.ElementIDs()) }},
+	{"Ways.FeatureIDs", "feature", true, func(l []Triple) bool { return allOfKinds(l, "way") }, func(l []Triple, keep *interface{}) []int64 { return fidsK(keep, osmOf(l).Ways.FeatureIDs()) }},
+	{"Relations.ElementIDs", "element", true, func(l []Triple) bool { return allOfKinds(l, "relation") }, func(l []Triple, keep *interface{}) []int64 { return eidsK(keep, osmOf(l).Relations.ElementIDs()) }},
+	{"Relations.FeatureIDs", "feature", true, func(l []Triple) bool { return allOfKinds(l, "relation") }, func(l []Triple, keep *interface{}) []int64 { return fidsK(keep, osmOf(l).Relations.FeatureIDs()) }},
 }
 
 func helperByName(name string) *listHelper {
@@ -220,14 +255,50 @@ func checkList(r *kit.Run, name string, list []Triple) {
 	bump(r, "list_helper_calls")
 	var ids []int64
 	var pan interface{}
+	retained := ""
 	func() {
 		defer func() {
 			if x := recover(); x != nil {
 				pan = x
 			}
 		}()
-		ids = h.f(list)
+		var kept interface{}
+		ids = h.f(list, &kept)
+		// the result belongs to the caller: it is still the same after the helper ran on
+		// another list of the same length (the same entries from the back, versions and
+		// refs moved by one), and writing into it does not show in the next call
+		other := make([]Triple, len(list))
+		for i, t := range list {
+			t.Ref, t.Ver = t.Ref^1, t.Ver^1
+			other[len(list)-1-i] = t
+		}
+		if h.ok(other) && len(list) > 0 {
+			h.f(other, nil)
+			if a := again(kept); !reflect.DeepEqual(a, ids) {
+				retained = fmt.Sprintf("the ids returned for %v changed when %s ran on another list: %v, were %v", shortList(list), name, a, ids)
+			}
+		}
+		switch x := kept.(type) {
+		case osm.ElementIDs:
+			for i := range x {
+				x[i] = 0
+			}
+		case osm.FeatureIDs:
+			for i := range x {
+				x[i] = 0
+			}
+		case osm.ObjectIDs:
+			for i := range x {
+				x[i] = 0
+			}
+		}
+		if b := h.f(list, nil); retained == "" && !reflect.DeepEqual(b, ids) {
+			retained = fmt.Sprintf("%s on %v after the caller overwrote the previous result: %v, was %v", name, shortList(list), b, ids)
+		}
 	}()
+	if retained != "" && pan == nil {
+		r.Violation("list-result-not-the-callers/"+name, retained, c)
+	}
 	if pan != nil {
 		r.Violation("list-panic/"+name, fmt.Sprintf("%s panicked on %v (n=%d): %v", name, shortList(list), len(list), pan), c)
 		return
